@@ -181,11 +181,11 @@ fn dir_name(w: u8) -> &'static str {
 fn check(ctx: &Ctx, b: &Built) {
     let src = ir::print_canonical(&b.nodes);
     let reference = layout::assemble(&layout::single(b.nodes.clone()));
-    verif::enable(verif::LAYOUT);
+    fw::hook_enable(verif::LAYOUT);
     let _ = verif::take();
     let out = fw::build_str(&src);
     let events = verif::take();
-    verif::enable(0);
+    fw::hook_enable(0);
     ctx.eval(1);
     let replay = |d: Value| json!({"source": src, "fault": b.fault, "detail": d, "observed": out.brief()});
     match (&reference, &out) {
